@@ -376,7 +376,11 @@ pub fn run_c11(prop: &str, seed: u64, index: usize, tier: Tier) -> RunReport {
         if c.class == Class::Read {
             reads_seen += 1;
         }
-        let errnos: Vec<i32> = if thorough { ERRNOS.to_vec() } else { vec![*rng.pick(&ERRNOS)] };
+        let mut errnos: Vec<i32> = if thorough { ERRNOS.to_vec() } else { vec![*rng.pick(&ERRNOS)] };
+        // EINTR from a call that std does not retry on the caller's behalf (everything but read): an error like any other
+        if c.class != Class::Read && (thorough || rng.chance(1, 3)) {
+            errnos.push(4);
+        }
         let consumed: Vec<usize> = if c.class == Class::Read {
             if thorough { vec![0, 1, 16384, c.len.saturating_sub(1)] } else { vec![0, *rng.pick(&[1usize, 16384, c.len.saturating_sub(1).max(1)])] }
         } else {
